@@ -199,14 +199,8 @@ Fixpoint zero_fill (k : nat) (b : list Z) (off : Z) : list Z * Z :=
   match k with O => (b, off) | S j => zero_fill j (put b off 48) (u8 (off + 1)) end.
 
 Definition BUFSZ : Z := 25.
-Definition prepare_val (fx : fixes) (is_unsigned : bool) (raw : Z) (precision : Z) : list Z :=
-  (* raw = the 64 bits of the argument, 0 <= raw < 2^64 *)
-  let sval := if raw <? 9223372036854775808 then raw else raw - 18446744073709551616 in
-  let minus := negb is_unsigned && (sval <? 0) in
-  (* `value` as the digit loops see it: the repaired code works on the unsigned magnitude *)
-  let value0 := if fx_uval fx then (if minus then - sval else raw)
-                else (if minus then - sval else sval) in
-  let v0 := if minus then - sval else raw in
+(* the 25-byte buffer after the three loops; v0 = the unsigned magnitude, value0 = `value` as the digit loops see it *)
+Definition prepare_buf (minus : bool) (v0 value0 precision : Z) : list Z :=
   let '(value, prec, n) := count_loop 20 v0 value0 precision false 0 in
   let b0 := repeat 85 (Z.to_nat BUFSZ) in
   let b1 := if minus then put b0 0 45 else b0 in
@@ -220,7 +214,17 @@ Definition prepare_val (fx : fixes) (is_unsigned : bool) (raw : Z) (precision : 
       else (b1, off0 + 1, u8 (prec + 1), n)
     else (b1, off0, prec, n) in
   let b3 := put b2 (n2 + off) 0 in
-  cstr (digit_loop 25 b3 value prec2 n2 off).
+  digit_loop 25 b3 value prec2 n2 off.
+
+Definition prepare_val (fx : fixes) (is_unsigned : bool) (raw : Z) (precision : Z) : list Z :=
+  (* raw = the 64 bits of the argument, 0 <= raw < 2^64 *)
+  let sval := if raw <? 9223372036854775808 then raw else raw - 18446744073709551616 in
+  let minus := negb is_unsigned && (sval <? 0) in
+  (* `value` as the digit loops see it: the repaired code works on the unsigned magnitude *)
+  let value0 := if fx_uval fx then (if minus then - sval else raw)
+                else (if minus then - sval else sval) in
+  let v0 := if minus then - sval else raw in
+  cstr (prepare_buf minus v0 value0 precision).
 
 (* ---------- wire interface ---------- *)
 Record st := { s_cfg : cfg; s_prefix : option (list Z) }.
